@@ -25,6 +25,7 @@ pub enum EvaluationError {
     InvalidExpression(String),
     ColumnIndexOutOfBounds(usize, usize),
     TypeError(TypeSystemError),
+    DivisionByZero,
 }
 
 impl Error for EvaluationError {}
@@ -41,6 +42,7 @@ impl Display for EvaluationError {
                 "column index out of bounds. Max allowed value is {max}, but found {usize}"
             ),
             Self::TypeError(err) => write!(f, "Type error: {err}"),
+            Self::DivisionByZero => f.write_str("division by zero"),
         }
     }
 }
@@ -398,6 +400,21 @@ impl<'a> ExpressionEvaluator<'a> {
         Ok(DataType::Blob(Blob::from(concatenated.as_str())))
     }
 
+    /// Integer division and remainder by zero are errors (the primitive operators would panic);
+    /// floating point division keeps its IEEE result.
+    fn check_integer_divisor(left: &DataType, right: &DataType) -> EvaluationResult<()> {
+        let is_integer = |v: &DataType| {
+            matches!(
+                v,
+                DataType::Int(_) | DataType::BigInt(_) | DataType::UInt(_) | DataType::BigUInt(_)
+            )
+        };
+        if is_integer(left) && is_integer(right) && right.to_f64() == Some(0.0) {
+            return Err(EvaluationError::DivisionByZero);
+        }
+        Ok(())
+    }
+
     fn eval_binary_op(
         &self,
         left: Vec<DataType>,
@@ -474,9 +491,11 @@ impl<'a> ExpressionEvaluator<'a> {
                     Ok(vec![left[0].mul(&right[0]).map_err(EvaluationError::from)?])
                 }
                 BinaryOperator::Divide => {
+                    Self::check_integer_divisor(&left[0], &right[0])?;
                     Ok(vec![left[0].div(&right[0]).map_err(EvaluationError::from)?])
                 }
                 BinaryOperator::Modulo => {
+                    Self::check_integer_divisor(&left[0], &right[0])?;
                     Ok(vec![left[0].rem(&right[0]).map_err(EvaluationError::from)?])
                 }
 
